@@ -47,6 +47,7 @@ CONFIGS = [
     cfg_file("tests/data/minimal.umist", "umist"),
     cfg_file("tests/data/minimal.krome", "krome"),
     cfg_file("tests/data/primordial.krome", "krome"),
+    {"name": "harness/data/commons.krome (directives between reactions)", "make": lambda: Network(filelist=str(fw.VERIF / "harness" / "data" / "commons.krome"), fileformats="krome")},
     cfg_file("tests/data/minimal.leeds", "leeds", "hh93"),
     cfg_file("tests/data/minimal.leeds", "leeds", "hh93i"),
     cfg_file("tests/data/minimal.ucl", "uclchem", "rr07", required_species=["H2"]),
